@@ -445,6 +445,25 @@ func (e *Engine) exec1(step int, cmd *Cmd, twin bool) {
 			return
 		}
 	}
+	if len(cmd.NeedHas) > 0 {
+		// functions over a collection stay inside the fragment only while the
+		// target item has it (as above)
+		ok := mt != nil && keyProblem(mt.Def.KeyAttrs(), cmd.Key, false) == ""
+		if ok {
+			cur := mt.Items[KeyID(mt.Def, cmd.Key)]
+			for a, typ := range cmd.NeedHas {
+				v, has := cur[a]
+				want, elem, _ := strings.Cut(typ, ":")
+				if !has || v.T != want || (elem != "" && (len(v.L) == 0 || v.L[0].T != elem)) {
+					ok = false
+				}
+			}
+		}
+		if !ok {
+			st.Skipped = true
+			return
+		}
+	}
 	var ws *walkState
 	if cmd.Op == "Open" {
 		ws = e.openWalk(cmd, mc, drv)
